@@ -46,6 +46,7 @@ T=[
 ("F35","C10","Levenberg-Marquardt scales",["C10/lm/linear-reaches-ls"],"LM assigns instead of scales its damping after an accepted step: linear models not reached within the step budget"),
 ("F36","C08","sample_covariance_onepass",["C08/covariance/onepass"],"sample_covariance_onepass lacks the -sum(u)sum(v)/n term: 2.5 instead of 1 on x = y = (0,1,2)"),
 ("F37","C04","element-wise operations on an empty matrix",["C04/Matrix/empty/panic"],"every value-returning element-wise operator/map on Matrix::empty() panics 'invalid shape'"),
+("F39","C01","solve and solve_sys take the Cholesky route only",["C01/solve/residual","C01/solve_sys/residual","C01/invert_matrix/residual"],"solve/solve_sys/invert_matrix: the routing's symmetry test has an absolute tolerance of EPSILON, so a tiny-scaled non-symmetric matrix (entries ~1e-17) is handed to Cholesky, which reads one triangle: solve(&[4e-17,1e-17,3e-17,3e-17],&[1,2]) returns the solution of the symmetrised system"),
 ("F38","C06","GLM fit only reports convergence",["C06/score/premature-stop"],"GLM::fit returns Ok far from the optimum: the monitored quantity is non-monotone and its relative change dips below the tolerance (Bernoulli n=37 alpha=10 tol 6e-7: intercept 1.0412 vs 1.0677)"),
 ]
 out=[]
